@@ -244,6 +244,22 @@ fn run_variants(w: &mut Work, rels: &[String], memo: Option<MemoSpec>, rep: &mut
     (out, o.fin.clone())
 }
 
+/// Substitution twins: `<x>_a` and `<x>_b` (see make_var_heavy) must have the same status.
+fn twin_mismatch(m: &BTreeMap<String, String>) -> Option<String> {
+    for (name, st) in m {
+        if let Some(stem) = name.strip_suffix("_a") {
+            if stem.starts_with("tw") {
+                if let Some(other) = m.get(&format!("{}_b", stem)) {
+                    if other != st {
+                        return Some(format!("substitution twin {}: with the variable / call {} but written in place {}", stem, st, other));
+                    }
+                }
+            }
+        }
+    }
+    None
+}
+
 /// Compare a variant with the identity run. None = agree (or not comparable).
 fn compare(base: &Outcome, var: &Outcome, dups: &[(String, String)], symmetric_errors: bool, rep: &mut Report) -> Option<String> {
     let ok = |c: &str| c == "exit:0" || c == "exit:19";
@@ -261,6 +277,9 @@ fn compare(base: &Outcome, var: &Outcome, dups: &[(String, String)], symmetric_e
     }
     let (bm, bs) = base.st.as_ref()?;
     let (vm, vs) = var.st.as_ref()?;
+    if let Some(t) = twin_mismatch(vm) {
+        return Some(t);
+    }
     if base.class != var.class {
         return Some(format!("exit {} -> {}", base.class, var.class));
     }
@@ -425,6 +444,10 @@ fn sig_of(diff: &str, kind: &str) -> String {
     let mut it = diff.split(' ');
     let a = it.next().unwrap_or("");
     let b = it.next().unwrap_or("");
+    if a == "substitution" {
+        // the side oracle does not depend on the schedule dimension it happened to be seen under
+        return format!("substitution/{}", it.next().unwrap_or("").trim_end_matches(':'));
+    }
     let head = if a == "exit" { "exit".to_string() } else { format!("{a}-{b}") };
     // ("error asymmetry .." -> error-asymmetry)
     format!("{kind}/{head}")
@@ -883,6 +906,67 @@ fn make_var_heavy(r: &mut Rng, p: &mut Prog, d: &J) {
             p.rules.push(Rule { name: "probe_call_x".into(), when: vec![], body: Body { lets: vec![], lines: vec![Line { alts: vec![Clause::Call { not: false, name: "pchk".into(), args: vec![v("pb"), v("pa")], msg: None }] }] } });
             p.rules.push(Rule { name: "probe_call_y".into(), when: vec![], body: Body { lets: vec![], lines: vec![Line { alts: vec![Clause::Call { not: false, name: "pchk".into(), args: vec![v("pb"), Arg::Lit(J::Int(2))], msg: None }] }] } });
         }
+    }
+    // Substitution twins (a side oracle on the same runs; no schedule involved): `<name>_a`
+    // refers to a variable / calls a parameterised rule, `<name>_b` has the definition written
+    // in place. The statement excepts only the emptiness test on a bare variable, which is
+    // not used here; the two rules of a pair must get the same status in every run.
+    if r.chance(2, 3) {
+        let k = key(r);
+        let kq = Query { some: false, parts: vec![Part::Key(k.clone())] };
+        // a value to compare with: the document's own value for that key (when it is a scalar
+        // the tool's literal syntax can express), else a fixed one
+        let dv = match d {
+            J::Map(kv) => kv.iter().find(|(kk, _)| *kk == k).map(|(_, v)| v.clone()),
+            _ => None,
+        };
+        let lit = match dv {
+            Some(v @ (J::Str(_) | J::Int(_) | J::Bool(_))) if doc::is_guard_literal_safe(&v) => v,
+            _ => J::Int(1),
+        };
+        let list_lit = J::List(vec![lit.clone(), J::Str("zz".into())]);
+        let one_lit = J::List(vec![lit.clone()]);
+        let cmp = |q: Query, op: Op, opnot: bool, rhs: Option<rules::Rhs>| Line { alts: vec![Clause::Cmp(Cmp { not: false, q, op, opnot, rhs, msg: None })] };
+        let var = |n: &str| Query { some: false, parts: vec![Part::Var(n.to_string())] };
+        let rule = |name: String, lets: Vec<Let>, lines: Vec<Line>| Rule { name, when: vec![], body: Body { lets, lines } };
+        // (1) a query-valued variable on the left-hand side
+        let (op, opnot, rhs) = match r.below(6) {
+            0 => (Op::Exists, false, None),
+            1 => (Op::IsString, r.chance(1, 2), None),
+            2 => (Op::IsList, r.chance(1, 2), None),
+            3 => (Op::Eq, false, Some(rules::Rhs::Lit(lit.clone()))),
+            4 => (Op::Eq, true, Some(rules::Rhs::Lit(lit.clone()))),
+            _ => (Op::In, r.chance(1, 3), Some(rules::Rhs::Lit(list_lit.clone()))),
+        };
+        let scope_file = r.chance(1, 2);
+        let def = Let { name: "twq".into(), val: Arg::Query(kq.clone()) };
+        if scope_file {
+            p.lets.push(def.clone());
+        }
+        p.rules.push(rule("tw1_a".into(), if scope_file { vec![] } else { vec![def] }, vec![cmp(var("twq"), op, opnot, rhs.clone())]));
+        p.rules.push(rule("tw1_b".into(), vec![], vec![cmp(kq.clone(), op, opnot, rhs)]));
+        // (2) a literal-valued variable on the right-hand side (scalar, list, one-element list)
+        let l2 = match r.below(3) {
+            0 => lit.clone(),
+            1 => list_lit.clone(),
+            _ => one_lit.clone(),
+        };
+        let op2 = if matches!(l2, J::List(_)) && r.chance(1, 2) { Op::In } else { Op::Eq };
+        let not2 = r.chance(1, 3);
+        p.lets.push(Let { name: "twl".into(), val: Arg::Lit(l2.clone()) });
+        p.rules.push(rule("tw2_a".into(), vec![], vec![cmp(kq.clone(), op2, not2, Some(rules::Rhs::Query(var("twl"))))]));
+        p.rules.push(rule("tw2_b".into(), vec![], vec![cmp(kq.clone(), op2, not2, Some(rules::Rhs::Lit(l2)))]));
+        // (3) a parameterised rule: query argument on the left, literal argument on the right
+        let l3 = match r.below(3) {
+            0 => lit.clone(),
+            1 => list_lit,
+            _ => one_lit,
+        };
+        let op3 = if matches!(l3, J::List(_)) && r.chance(1, 2) { Op::In } else { Op::Eq };
+        let not3 = r.chance(1, 3);
+        p.prules.push(rules::PRule { name: "twp".into(), params: vec!["tx".into(), "ty".into()], body: Body { lets: vec![], lines: vec![cmp(var("tx"), op3, not3, Some(rules::Rhs::Query(var("ty"))))] } });
+        p.rules.push(rule("tw3_a".into(), vec![], vec![Line { alts: vec![Clause::Call { not: false, name: "twp".into(), args: vec![Arg::Query(kq.clone()), Arg::Lit(l3.clone())], msg: None }] }]));
+        p.rules.push(rule("tw3_b".into(), vec![], vec![cmp(kq, op3, not3, Some(rules::Rhs::Lit(l3)))]));
     }
     // two rules of one name (legal), each with its own rule-level variable of the same
     // name bound to something else; no rule refers to them by name
